@@ -283,11 +283,8 @@ def layout_flags(layout, dt):
 # ---------------------------------------------------------------- classification
 
 def finding_region(i, o, q):
-    """Region predicates of the findings recorded in findings/C11.json."""
-    if o == "uint64" and is_float(i) and q >= 2 ** 64:
-        return "uint64-top-wraps-to-zero"
-    if o == "uint64" and i == "int64" and q > 2 ** 53:
-        return "int64-to-uint64-through-float64"
+    """Region predicate of the finding recorded in findings/C11.json
+    (the uint64-top and int64-via-float64 regions were repaired in /repo)."""
     if o == "float32" and i == "float64" and abs(q) >= F32_OVERFLOW:
         return "float64-to-float32-overflows-to-inf"
     return None
@@ -360,15 +357,14 @@ def check_case(R, np, tf_cache, i, o, preserve, layout, raws, mrep, classes=None
     return problems
 
 
-GUARD_IDS = ["uint64-top-wraps-to-zero", "int64-to-uint64-through-float64",
-             "float64-to-float32-overflows-to-inf"]
+GUARD_IDS = ["float64-to-float32-overflows-to-inf"]
 
 
 def oracle_values(R, np, i, o, raws, got, spec, guards, classes=None):
     """Apply the oracle to the implementation's results for finite inputs.
     spec = extracted nearest_sat_of replies [(finite?, expected raw)];
-    guards = extracted guard triples (Convert.uint64_top_guard, int64_via_float_guard,
-    float32_overflow_guard) per value: a false guard names the finding region."""
+    guards = extracted guard (Convert.float32_overflow_guard) per value: a false
+    guard names the finding region."""
     problems = 0
     for k, b in enumerate(raws):
         if not raw_is_finite(i, b):
